@@ -347,6 +347,8 @@ def select__child_path(self: XPathToken, context: ta.ContextType = None) \
         yield from self[0].select(context)
     else:
         items: set[ta.ItemType] = set()
+        nodes: list[XPathNode] = []
+        ordered = True
         for _ in self[0].select_with_focus(context):
             if not isinstance(context.item, XPathNode):
                 msg = f"Intermediate step contains an atomic value {context.item!r}"
@@ -357,13 +359,16 @@ def select__child_path(self: XPathToken, context: ta.ContextType = None) \
                     yield result
                 elif result in items:
                     pass
-                elif isinstance(result, ElementNode):
-                    if result.value not in items:
-                        items.add(result)
-                        yield result
+                elif isinstance(result, ElementNode) and result.value in items:
+                    pass
                 else:
                     items.add(result)
-                    yield result
+                    if nodes and ordered and result.position < nodes[-1].position:
+                        ordered = False
+                    nodes.append(result)
+
+        # A path expression returns its nodes in document order
+        yield from nodes if ordered else sorted(nodes, key=node_position)
 
 
 @method('//')
@@ -374,6 +379,8 @@ def select__descendant_path(self: XPathToken, context: ta.ContextType = None) \
         raise self.missing_context()
     elif len(self) == 2:
         items: set[ta.ItemType] = set()
+        nodes: list[XPathNode] = []
+        ordered = True
         for _ in self[0].select_with_focus(context):
             if not isinstance(context.item, XPathNode):
                 raise self.error('XPTY0019')
@@ -384,13 +391,16 @@ def select__descendant_path(self: XPathToken, context: ta.ContextType = None) \
                         yield result
                     elif result in items:
                         pass
-                    elif isinstance(result, ElementNode):
-                        if result.value not in items:
-                            items.add(result)
-                            yield result
+                    elif isinstance(result, ElementNode) and result.value in items:
+                        pass
                     else:
                         items.add(result)
-                        yield result
+                        if nodes and ordered and result.position < nodes[-1].position:
+                            ordered = False
+                        nodes.append(result)
+
+        # A path expression returns its nodes in document order
+        yield from nodes if ordered else sorted(nodes, key=node_position)
 
     else:
         if isinstance(context.document, DocumentNode):
